@@ -153,7 +153,9 @@ class SizeRule(sym.Rule):
         old_end = lin_add(data, lin_scale(old, self.s))
         new_end = lin_add(data, lin_scale(new, self.s))
         if d == sym.ZERO:
-            return (frozenset(), dest, dec, reptr)
+            # the size is stored with the value it had: nothing is covered or uncovered by it, and what
+            # was constructed beyond it stays pending
+            return (cons, dest, dec, reptr)
         neg = (d[1] <= 0 and all(c < 0 for a, c in d[2]) and (d[1] < 0 or d[2])) or const_of(new) == 0
         pos = d[1] >= 0 and all(c > 0 for a, c in d[2])
         desc = where(ev, self.orc)
@@ -223,7 +225,8 @@ class SizeRule(sym.Rule):
                     d, sz, end = self.cur_end(this, st, eng)
                     if end is not None:
                         for (start, e, desc) in cons:
-                            if start == end and not any(a == start for (a, b) in dest):
+                            # (a destruction of the empty range [x, x) destroys nothing)
+                            if start == end and not any(a == start and b != a for (a, b) in dest):
                                 dk = (f.name, 'uncommitted', desc)
                                 if dk not in self.reports:
                                     self.reports[dk] = Report(
